@@ -33,6 +33,8 @@ def main():
     jobs.append(("MC_Trees", c07.trees_cfg(5, 0, {"var", "type", "lam", "pi", "ndpi", "let", "if", "app", "neg"}, {"sum", "lt"}, drops=1), "trees-drop-binders-5"))
     jobs.append(("GramDefOrder", 'CONSTANTS N = 3  Mode = "sorted"\nINIT Init\nNEXT Next\nINVARIANTS Deterministic RefinesRule\nCHECK_DEADLOCK FALSE\n', "deforder-3"))
     jobs += [("MC_UnifyAlg", c12.alg_cfg(4, False, "AlgSound AlgReflRed"), "unifyalg-design-4"), ("MC_UnifyAlg", c12.alg_cfg(4, True, "AlgSoundModuloCopies AlgReflRed"), "unifyalg-code-4")]
+    from checks import c17
+    jobs.append(("GramPackrat", c17.PACKRAT_CFG, "packrat"))
     for module, cfg, name in jobs:
         heap = "20g" if module == "MC_Grammar" else "12g"
         st = vf.tlc_generate(module, cfg, name, timeout=6000, workers=14, heap=heap)
